@@ -32,8 +32,8 @@ LEAN = dict(
     theorems=[T + n for n in [
         "open_r_pure", "open_r_refuses_patching", "open_rplus_continues", "open_rplus_new_patch",
         "open_a_creates_when_absent", "open_w_replaces", "open_x_refuses_existing", "open_x_creates_when_absent",
-        "open_missing_r_fails", "reopen_same_view", "discard_returns_to_commit",
-        "findFiles_exact", "findFiles_disjoint", "sortByIdx_perm_invariant"]],
+        "open_missing_r_fails", "sortByIdx_perm_invariant", "open_accepts_any_order", "open_yields_coherent",
+        "reopen_same_view", "discard_returns_to_commit", "findFiles_exact", "findFiles_disjoint"]],
     drivers=["drv_rec"],
 )
 
@@ -370,7 +370,9 @@ def gen_reopen(rng, n_ops):
                 n = 1
         # count creates/discards roughly: use the simulation of c02 for nothing more than a bound
         n = 1 + sum(1 for o in ops if o[0] == "create") + sum(1 for o in ops if o[0] == "open" and o[2] in ("r+", "a"))
-        if rng.random() < 0.3:
+        if rng.random() < 0.3 and not any(o[0] == "merge" for o in ops):
+            # reopen with the other class (only when no merge happened: a container merged by the plain
+            # class keeps the manifest extension without a sidecar, which IH5MFRecord refuses — class mixing)
             c = rng.choice("pm")
         return reopen_case(rng, ops, c, name, rng.random() < 0.7, min(n, 6) if n > 4 else rng.choice([2, 3, 4]))
 
